@@ -92,6 +92,17 @@ Flat(doc, out, txt, blk, E) ==
                 [] out[j].k = "js"   -> blk.js
                 [] out[j].k = "frag" -> blk.frag], Len(out), E)
 
+(* ---- carried texts (layer A on texts) ----------------------------------- *)
+\* x is a contiguous sub-text of text
+Occurs(x, text) == \E p \in 0..(Len(text) - Len(x)) : SubSeq(text, p + 1, p + Len(x)) = x
+\* the same with a hint where to look (0-based; negative = no hint: search)
+OccursAt(x, text, at) == IF at >= 0 THEN at + Len(x) <= Len(text) /\ SubSeq(text, at + 1, at + Len(x)) = x
+                         ELSE Occurs(x, text)
+\* pay: the texts the components of the document contribute verbatim, [k: block kind, s: text, at: hint];
+\* the ones of a kind in `kinds` that the block of that kind does not carry
+NotCarried(blk, pay, kinds) ==
+  {j \in DOMAIN pay : pay[j].k \in kinds /\ ~OccursAt(pay[j].s, blk[pay[j].k], pay[j].at)}
+
 (* ---- shapes on which the deviations show -------------------------------- *)
 \* document mode, no recognised placeholder of either kind, the last lower-case </body>
 \* lies before the first lower-case </head>, CSS block not empty: the JS lands len(css)
